@@ -471,3 +471,20 @@ pub fn run(rep: &Reporter, thorough: bool) -> Value {
         "explanation": "bounded-exhaustive enumeration of the codec's input space: every record of a structured space (6 kinds x all Some/None combinations x boundary integers x payload lengths up to 64 KiB) is encoded by an independent encoder, decoded by the crate, re-encoded and compared; every proper prefix (all positions for records <= 512 bytes, first/last 64 and every 97th otherwise) must be UnexpectedEof; every single-byte substitution and every arbitrary input (all strings <= 2 bytes; 9 type tags x all bodies over {00,01,02,FF} up to the length bound, with wrong and correct checksum) must not panic and, if accepted, must re-encode to exactly the consumed bytes. 'states'/'transitions' = decoder executions (each on a distinct input).",
     })
 }
+
+/// Re-judges one recorded input.
+pub fn replay(rep: &Reporter, r: &Value) -> bool {
+    let hexs = r["bytes_hex"].as_str().unwrap_or("");
+    let bytes: Vec<u8> = (0..hexs.len() / 2).filter_map(|i| u8::from_str_radix(&hexs[2 * i..2 * i + 2], 16).ok()).collect();
+    judge(rep, &bytes, "recorded input");
+    // prefixes of a valid record must be incomplete
+    if let Dec::Ok { consumed, .. } = decode(&bytes) {
+        for cut in 0..consumed {
+            if !matches!(decode(&bytes[..cut]), Dec::Err(std::io::ErrorKind::UnexpectedEof)) {
+                rep.report(mk(rep, "prefix-not-eof", format!("prefix of length {} is not UnexpectedEof", cut), &bytes[..cut]));
+                break;
+            }
+        }
+    }
+    true
+}
